@@ -30,6 +30,16 @@ def tolerated_failure_same_checksum():
     return p, ops
 
 
+def tolerated_failure_same_checksum_file_removed():
+    """As above, but the file of the checksummed dependency was removed by hand before the build that fails: the failure leaves
+    no file behind, so redo no longer counts the dependency as one of its targets - the consumer that carried on after the failure
+    must still not look up to date once the dependency is repaired to the same content (seeded change C05-7)."""
+    p = _prog(['s0', 's1'], [('t3', dict(deps=['s1'], stamp=True, flag=0)), ('t1', dict(deps=['s0'])),
+                             ('t4', dict(deps=['t1'], opt='t3')), ('t6', dict(deps=['t4']))])
+    ops = [B(['t6']), ('flag', 't3', 1), ('rm', 't3'), B(['t4']), B(['t4']), ('flag', 't3', 0), B(['t3']), B(['t4']), B(['t6']), B(['t6'])]
+    return p, ops
+
+
 def tolerated_failure_plain():
     p = _prog(['s0'], [('t3', dict(deps=['s0'], flag=0)), ('t4', dict(deps=['s0'], opt='t3')), ('t5', dict(deps=['t4']))])
     ops = [B(['t5']), ('flag', 't3', 1), B(['t5']), B(['t5']), ('flag', 't3', 0), B(['t5']), B(['t5'])]
@@ -97,6 +107,6 @@ def forced_rebuild_fails_then_indirect_request():
     return p, ops
 
 
-SCENARIOS = dict((f.__name__, f) for f in (tolerated_failure_same_checksum, tolerated_failure_plain, forced_after_check_same_command,
+SCENARIOS = dict((f.__name__, f) for f in (tolerated_failure_same_checksum, tolerated_failure_same_checksum_file_removed, tolerated_failure_plain, forced_after_check_same_command,
                                            oob_dependency_fails_before_or_after, stamp_chain_edit_cycle, stamp_sometimes, override_then_removed,
                                            overwritten_checksummed_then_failing_sibling, forced_rebuild_fails_then_indirect_request))
